@@ -792,6 +792,27 @@ where
     if t.get(model.cap()).is_ok() {
         return mm("leaf_oob", format!("get({}) beyond capacity succeeded", model.cap()));
     }
+    // a tree that received a large batch (hundreds of leaves at once): every leaf and every stored node
+    if model.depth <= 12 && model.cap() > 64 && model.leaves.len() > 200 {
+        let levels = model.dense_levels();
+        for i in 0..model.cap() {
+            match t.get(i) {
+                Ok(v) if v == levels[model.depth][i] => {}
+                Ok(_) => return mm("leaf", format!("get({i}) differs from model after a large batch")),
+                Err(e) => return mm("leaf", format!("get({i}) failed: {e}")),
+            }
+        }
+        for level in 1..model.depth {
+            let span = model.depth - level;
+            for idx in 0..(1usize << level) {
+                match t.get_subtree_root(level, idx << span) {
+                    Ok(v) if v == levels[level][idx] => {}
+                    Ok(_) => return mm("subtree_root", format!("get_subtree_root({level},{}) differs from model after a large batch", idx << span)),
+                    Err(e) => return mm("subtree_root", format!("get_subtree_root({level},{}) failed: {e}", idx << span)),
+                }
+            }
+        }
+    }
     // subtree roots: every level for a few positions (all positions for small trees)
     let sub: Vec<usize> = if model.cap() <= 16 { probes.to_vec() } else { probes.iter().copied().step_by(3).take(8).collect() };
     for &i in &sub {
@@ -1876,6 +1897,8 @@ fn gen_removals(rng: &mut Prng, m: &IdealTree, start: usize, n: usize) -> Vec<us
 }
 
 pub struct GenCfg {
+    /// allow the "large batch" profile: depth 11-12, few steps, range / batch writes of hundreds to thousands of leaves
+    pub big: bool,
     pub prop: String,
     pub allow_rln: bool,
     pub allow_pm: bool,
@@ -1884,7 +1907,49 @@ pub struct GenCfg {
     pub deep: bool,
 }
 
+/// Large-batch profile: storage and recomputation paths that only a write of many leaves at once reaches.
+fn generate_big(seed: u64, g: &GenCfg) -> Trace {
+    let mut rng = Prng::new(seed ^ 0xb16);
+    let depth = 11 + rng.usize_below(2);
+    let mut nodes: Vec<String> = vec!["full".into(), "opt".into()];
+    let reopen = g.allow_reopen && g.allow_pm && rng.chance(1, 2);
+    if g.allow_pm {
+        nodes.push(if reopen { "pmp".into() } else { "pm".into() });
+    }
+    let store = StoreCfg::gen(&mut rng);
+    let mut m = IdealTree::new(depth);
+    let mut uniq = 0u64;
+    let mut steps = Vec::new();
+    let n = 2 + rng.usize_below(4);
+    for _ in 0..n {
+        let cap = m.cap();
+        let op = match rng.weighted(&[5, 3, 2, 2, 1]) {
+            0 => {
+                let len = *rng.pick(&[300usize, 820, 1000, 1639, 2048, 3000]);
+                let start = rng.usize_below(cap - len.min(cap - 1));
+                Op::SetRange { start, vals: (0..len.min(cap - start)).map(|k| { uniq += 1; Fr::from(5000 + uniq + k as u64) }).collect() }
+            }
+            1 => {
+                let len = *rng.pick(&[500usize, 1700, 2500]);
+                let start = rng.usize_below(cap - len.min(cap - 1));
+                Op::Batch { start, vals: (0..len.min(cap - start)).map(|k| { uniq += 1; Fr::from(9000 + uniq + k as u64) }).collect(), rem: vec![] }
+            }
+            2 => Op::Set { i: gen_pos(&mut rng, &m), v: gen_value(&mut rng, &mut uniq) },
+            3 => Op::Delete { i: gen_pos(&mut rng, &m) },
+            _ => {
+                if reopen { Op::Reopen { flush: rng.chance(1, 2) } } else { Op::Append { v: gen_value(&mut rng, &mut uniq) } }
+            }
+        };
+        step_model(&mut m, &op);
+        steps.push(Step::plain(op));
+    }
+    Trace { prop: g.prop.clone(), seed, depth, nodes, store, steps }
+}
+
 pub fn generate(seed: u64, g: &GenCfg) -> Trace {
+    if g.big && seed % 40 == 7 {
+        return generate_big(seed, g);
+    }
     let mut rng = Prng::new(seed);
     let depth = if g.deep && rng.chance(1, 12) {
         *rng.pick(&[10usize, 20])
